@@ -80,19 +80,60 @@ package cmap
 
 // decodeFormat4: total on arbitrary bytes (C02); glyphIdArray is only indexed
 // after the range derived from idRangeOffset was checked against its length.
+// Format 4 (segment mapping to delta values), OpenType cmap specification:
+// segment k maps the codes startCode[k]..endCode[k]; with idRangeOffset[k] == 0
+// the glyph is (c + idDelta[k]) mod 65536, otherwise the glyph index array entry
+// addressed through idRangeOffset - and, if that entry is not 0, idDelta[k] is
+// added to it modulo 65536 (defect F39 found here: the delta was not added).
+// Glyph 0 means "not mapped".
+//@ spec f4n(d []byte) int = be16(d, 6) / 2
+//@ spec f4end(d []byte, k int) int = be16(d, 14 + 2*k)
+//@ spec f4start(d []byte, k int) int = be16(d, 16 + 2*f4n(d) + 2*k)
+//@ spec f4delta(d []byte, k int) int = be16(d, 16 + 4*f4n(d) + 2*k)
+//@ spec f4iro(d []byte, k int) int = be16(d, 16 + 6*f4n(d) + 2*k)
+//@ spec f4idx(d []byte, k int, c int) int = f4iro(d, k) / 2 - (f4n(d) - k) + (c - f4start(d, k))
+//@ spec f4arr(d []byte, j int) int = be16(d, 16 + 8*f4n(d) + 2*j)
+//@ spec f4u16(x int) int = ite(x >= 65536, x - 65536, x)
+//@ spec f4glyph(d []byte, k int, c int) int = ite(f4iro(d, k) == 0, f4u16(c + f4delta(d, k)), ite(f4arr(d, f4idx(d, k, c)) == 0, 0, f4u16(f4arr(d, f4idx(d, k, c)) + f4delta(d, k))))
+// the glyph index array entries of segment k lie inside the subtable
+//@ pred f4valid(d []byte, k int) = f4iro(d, k) == 0 || (0 <= f4idx(d, k, f4start(d, k)) && f4idx(d, k, f4start(d, k)) + (f4end(d, k) + 1 - f4start(d, k)) <= (len(d) - 16 - 8*f4n(d)) / 2)
+
+// code -> rune conversions passed to the decoders: pure; the package's own
+// `unicode` is the identity (ASSUMED for foreign functions: no side effects).
+//@ functype code2runeFn(c int) (r rune)
+//@   ensures thisfunc == unicode && 0 <= c && c <= 2147483647 ==> r == c
+//@   modifies nothing
+
 //@ func decodeFormat4(in []byte, code2rune func(c int) rune) (sub Subtable, err error)   props: C02 C09
+//@   any k0 int, c0 int
+//@   let code2rune0 = old(code2rune == nil)
+//@   ensures err == nil ==> sub != nil && is(sub, Format4)
+//@   ensures err == nil && (code2rune0 && 0 <= k0 && k0 < f4n(in) && f4start(in, k0) <= c0 && c0 <= f4end(in, k0) && f4valid(in, k0) && f4glyph(in, k0, c0) != 0) ==> has(sub.(Format4), c0) && sub.(Format4)[c0] == f4glyph(in, k0, c0)
+//@   modifies nothing
 //@   loop 0
-//@     invariant 14 <= i && i <= len(in) && i%2 == 0 && len(in)%2 == 0 && len(words) == (i - 14)/2 && cap(words) >= (len(in) - 14)/2 && fresh(words) && segCount*2 == segCountX2 && 4*segCountX2 + 16 <= len(in) && 0 <= segCount && code2rune != nil
+//@     invariant 14 <= i && i <= len(in) && i%2 == 0 && len(in)%2 == 0 && len(words) == (i - 14)/2 && cap(words) >= (len(in) - 14)/2 && fresh(words) && segCount*2 == segCountX2 && 4*segCountX2 + 16 <= len(in) && 0 <= segCount && code2rune != nil && segCount == f4n(in) && (code2rune0 ==> code2rune == unicode)
+//@     invariant forall j int :: 0 <= j && j < len(words) ==> words[j] == be16(in, 14 + 2*j)
 //@     decreases len(in) - i
+//@   let SL = len(endCode) == segCount && len(startCode) == segCount && len(idDelta) == segCount && len(idRangeOffset) == segCount && cmap != nil && fresh(cmap) && code2rune != nil && (code2rune0 ==> code2rune == unicode) && segCount == f4n(in) && len(glyphIDArray) == (len(in) - 16 - 8*segCount)/2 && 4*segCount*2 + 16 <= len(in) && len(in)%2 == 0
+//@   let WD = (forall j int :: 0 <= j && j < segCount ==> endCode[j] == f4end(in, j) && startCode[j] == f4start(in, j) && idDelta[j] == f4delta(in, j) && idRangeOffset[j] == f4iro(in, j)) && (forall j int :: 0 <= j && j < len(glyphIDArray) ==> glyphIDArray[j] == f4arr(in, j))
+//@   let DONE = k0 < k && (code2rune0 && 0 <= k0 && k0 < f4n(in) && f4start(in, k0) <= c0 && c0 <= f4end(in, k0) && f4valid(in, k0) && f4glyph(in, k0, c0) != 0) ==> has(cmap, c0) && cmap[c0] == f4glyph(in, k0, c0)
 //@   loop 1
-//@     invariant 0 <= k && k <= segCount && len(endCode) == segCount && len(startCode) == segCount && len(idDelta) == segCount && len(idRangeOffset) == segCount && cmap != nil && code2rune != nil && len(glyphIDArray) >= 0 && prevEnd <= 65536
+//@     invariant 0 <= k && k <= segCount && SL && WD && prevEnd <= 65536
+//@     invariant DONE
+//@     invariant 0 <= k0 && k0 < k ==> f4end(in, k0) + 1 <= prevEnd
 //@     decreases segCount - k
 //@   loop 2
-//@     invariant start <= idx && idx <= end && end <= 65536 && 0 <= k && k < segCount && len(endCode) == segCount && len(startCode) == segCount && len(idDelta) == segCount && len(idRangeOffset) == segCount && cmap != nil && code2rune != nil && prevEnd <= 65536
+//@     invariant start <= idx && idx <= end && end <= 65536 && 0 <= k && k < segCount && SL && WD && prevEnd <= 65536 && start == f4start(in, k) && end == f4end(in, k) + 1 && delta == f4delta(in, k) && f4iro(in, k) == 0
+//@     invariant DONE
+//@     invariant 0 <= k0 && k0 < k ==> f4end(in, k0) < start
+//@     invariant k == k0 && (code2rune0 && 0 <= k0 && k0 < f4n(in) && f4start(in, k0) <= c0 && c0 <= f4end(in, k0) && f4valid(in, k0) && f4glyph(in, k0, c0) != 0) && c0 < idx ==> has(cmap, c0) && cmap[c0] == f4glyph(in, k0, c0)
 //@     decreases end - idx
 //@   loop 3
-//@     invariant start <= idx && idx <= end && end <= 65536 && 0 <= k && k < segCount && len(endCode) == segCount && len(startCode) == segCount && len(idDelta) == segCount && len(idRangeOffset) == segCount && cmap != nil && code2rune != nil && prevEnd <= 65536
+//@     invariant start <= idx && idx <= end && end <= 65536 && 0 <= k && k < segCount && SL && WD && prevEnd <= 65536 && start == f4start(in, k) && end == f4end(in, k) + 1 && delta == f4delta(in, k) && f4iro(in, k) != 0 && d == f4idx(in, k, start)
 //@     invariant 0 <= d && d + (end - start) <= len(glyphIDArray)
+//@     invariant DONE
+//@     invariant 0 <= k0 && k0 < k ==> f4end(in, k0) < start
+//@     invariant k == k0 && (code2rune0 && 0 <= k0 && k0 < f4n(in) && f4start(in, k0) <= c0 && c0 <= f4end(in, k0) && f4valid(in, k0) && f4glyph(in, k0, c0) != 0) && c0 < idx ==> has(cmap, c0) && cmap[c0] == f4glyph(in, k0, c0)
 //@     decreases end - idx
 
 // Table.Get (assumed, used by sfnt.Font.Subset): decodes the subtable stored
